@@ -590,6 +590,25 @@ def _convex_vertices(rng, stream, size):
     return V
 
 
+def _domain_vertices(rng, stream, size, lo, hi):
+    """vertex cloud whose edge sizes (all pairwise vertex distances) lie in [lo, hi] (domain D: 'edge sizes, vertex
+    spread'); the cloud is rescaled / redrawn until it fits"""
+    for _ in range(20):
+        V = _convex_vertices(rng, stream, size)
+        D = [float(np.linalg.norm(V[i] - V[j])) for i in range(len(V)) for j in range(i)]
+        dmin, dmax = min(D), max(D)
+        if dmin <= 0.0 or dmax / dmin > 0.9 * hi / lo:
+            continue
+        f = 1.0
+        if dmin < lo:
+            f = 1.05 * lo / dmin
+        if dmax * f > hi:
+            f = 0.95 * hi / dmax
+        if dmin * f >= lo and dmax * f <= hi:
+            return V * f
+    return np.array([[0.0, 0.0, 0.0], [1.0, 0.0, 0.0], [0.0, 1.0, 0.0], [0.0, 0.0, 1.0]]) * max(lo, min(hi, size))
+
+
 COLLIDER_KINDS = ["sphere", "ellipsoid", "capsule", "cylinder", "cone", "box", "disk", "ellipse", "mesh", "hull"]
 
 
@@ -650,12 +669,12 @@ def gen_shape(rng, kind, stream, center, R, lo=1e-2, hi=1e2):
         s = size()
         return {"kind": kind, "c": c, "axes": [R[:, 0].tolist(), R[:, 1].tolist()], "radii": [s, rel_size(s)]}
     if kind == "hull":
-        V = _convex_vertices(rng, stream, 0.5 * size())
+        V = _domain_vertices(rng, stream, 0.5 * size(), lo, hi)
         return {"kind": kind, "v": (V.dot(R.T) + np.array(center)).tolist()}
     if kind == "mesh":
         from distance3d.mesh import make_convex_mesh
         from scipy.spatial import ConvexHull
-        V = _convex_vertices(rng, stream, 0.5 * size())
+        V = _domain_vertices(rng, stream, 0.5 * size(), lo, hi)
         V = V[ConvexHull(V).vertices]       # MeshGraph needs every vertex on the hull (C17: unused vertices)
         tri = make_convex_mesh(V)
         return {"kind": kind, "pose": T, "v": V.tolist(), "tri": np.asarray(tri).tolist()}
@@ -830,6 +849,32 @@ def degenerate_placement(s1, s2, eps=1e-9):
     return False
 
 
+def _numbers(sh):
+    out = []
+    for name, role in ROLES[sh["kind"]]:
+        v = sh[name]
+        if role == "X":
+            out += _numbers(v)
+        elif role == "I":
+            continue
+        elif role == "T":
+            out += [float(x) for x in np.asarray(v, dtype=float)[:3, :].ravel()]
+        else:
+            out += [float(x) for x in np.asarray(v, dtype=float).ravel()]
+    return out
+
+
+def lattice_scene(s1, s2):
+    """every defining number of the scene (coordinates, pose entries, sizes) is an integer multiple of 1/1000 (up to
+    rounding): small-denominator rational data, as produced by half-integer coordinates and 3-4-5 rotations; exact
+    ties in support functions / face selection are the rule there"""
+    for x in _numbers(s1) + _numbers(s2):
+        y = x * 1000.0
+        if abs(y - round(y)) > 1e-6:
+            return False
+    return True
+
+
 def _supporting_dir(sh):
     if sh["kind"] == "line":
         return A(sh["d"])
@@ -920,10 +965,11 @@ def _cls_epa_curved(fname, rel, s1, s2, det):
 
 def _cls_epa_degenerate(fname, rel, s1, s2, det):
     """epa on polytopes with exactly aligned features (parallel / perpendicular faces and edges, coincident
-    centres): GJK hands over a degenerate (flat) simplex, the initial faces are never oriented and faces with
-    |normal| < 0.5 are skipped"""
+    centres) or small-denominator rational coordinates (lattice scenes: exact ties in the support functions and in
+    the closest-face selection): GJK hands over a degenerate / differently wound simplex, the initial faces are never
+    oriented and faces with |normal| < 0.5 are skipped, so the reported depth is not the minimum in some frames"""
     return fname == "epa" and det["what"] == "d" and not (_is_curved(s1) or _is_curved(s2)) and \
-        degenerate_placement(s1, s2)
+        (degenerate_placement(s1, s2) or lattice_scene(s1, s2))
 
 
 def _cls_nesterov_momentum(fname, rel, s1, s2, det):
@@ -1349,9 +1395,11 @@ def correspondence(ctx):
         sg = [A(pts[0]), A(pts[1]), A(pts[2]), A(pts[3])]
         if lattice and rng.random() < 0.3:
             sg[3] = sg[2] + (sg[1] - sg[0]) * rng.choice([1.0, -1.0, 0.5])     # parallel segments
-        if lattice and rng.random() < 0.1:
+        if lattice and rng.random() < 0.12:
             sg[1] = sg[0].copy()                                              # degenerate first segment
-        if np.linalg.norm(sg[3] - sg[2]) > 0 or np.linalg.norm(sg[1] - sg[0]) == 0:
+        if lattice and rng.random() < 0.12:
+            sg[3] = sg[2].copy()                                              # degenerate second segment
+        if True:
             ok, r = guarded(dd.line_segment_to_line_segment, *sg)
             if ok and np.all(np.isfinite(np.concatenate([[r[0]], r[1], r[2]]))):
                 add("C12.seg_to_seg", mode, sum((_enc(x, mode) for x in sg), []),
@@ -1370,6 +1418,12 @@ def correspondence(ctx):
         add("C12.support_capsule", mode, _enc(d0, mode) + _pose_tokens(T, mode) + _enc([rad, hgt], mode),
             ("sup-tie" if tie else "sup", A(r)), max(scale, rad, hgt), "support_function_capsule", si, False)
 
+    # fixed corpus: both segments degenerate (branch 0 of _line_segment_to_line_segment)
+    sg = [A([0.0, 0.0, 0.0]), A([0.0, 0.0, 0.0]), A([1.0, 2.0, 2.0]), A([1.0, 2.0, 2.0])]
+    r = dd.line_segment_to_line_segment(*sg)
+    add("C12.seg_to_seg", "Q", sum((_enc(x, "Q") for x in sg), []), ("res3", np.concatenate([[r[0]], r[1], r[2]])), 3.0,
+        "line_segment_to_line_segment", {"segments": [x.tolist() for x in sg]}, False)
+    ctx.count("corr:L", key=("corr", "corpus-seg-degenerate"))
     out = drv.run()
     tag_of = {cid: (impl[0] if isinstance(impl, tuple) else None) for cid, _m, impl, _s, _n, _si, _e in plan}
     for cid, mode, impl, scale, name, si, exact in plan:
